@@ -138,12 +138,13 @@ fn main() {
 				orch::Tier::Quick => "3",
 				orch::Tier::Thorough => "4",
 			};
-			let out = std::process::Command::new(orch::verif_root().join("loomleg/run.sh")).arg(bound).output();
-			match out {
-				Err(e) => {
-					cov.insert("loom_leg".into(), serde_json::json!(format!("not run: {e}")));
+			let mut cmd = std::process::Command::new(orch::verif_root().join("loomleg/run.sh"));
+			cmd.arg(bound);
+			match orch::output_with_timeout(cmd, 900) {
+				None => {
+					cov.insert("loom_leg".into(), serde_json::json!("not completed within its wall limit"));
 				}
-				Ok(o) => {
+				Some(o) => {
 					let text = String::from_utf8_lossy(&o.stdout).to_string();
 					let mut bodies = vec![];
 					let mut total = 0u64;
@@ -179,8 +180,11 @@ fn main() {
 	} else if prop == "C04" && args.worker.is_none() && args.replay.is_none() {
 		Some(Box::new(move |cov, viols| {
 			let exe = std::env::current_exe().expect("exe");
-			let Ok(o) = std::process::Command::new(exe).args(["C04", "--real-leg"]).output() else {
-				cov.insert("real_process_leg".into(), serde_json::json!("not run"));
+			let mut cmd = std::process::Command::new(exe);
+			cmd.args(["C04", "--real-leg"]);
+			let Some(o) = orch::output_with_timeout(cmd, 300) else {
+				cov.insert("real_process_leg".into(), serde_json::json!("not completed within its wall limit (no verdict from this leg)"));
+				eprintln!("MACHINERY-WARNING property=C04 real-process leg did not complete");
 				return;
 			};
 			let text = String::from_utf8_lossy(&o.stdout).to_string();
